@@ -30,6 +30,9 @@ pub struct PCfg {
     pub fail_codes: Vec<i32>,
     /// allow one injected transport fault on a read RPC (cost 1)
     pub faults: bool,
+    /// many parts: only the canonical order (answers oldest first, parts resolve in index order), each part
+    /// either completing or failing — keeps 5-6 part configurations small
+    pub sequential: bool,
 }
 
 #[derive(Debug, Clone)]
@@ -171,6 +174,9 @@ impl P {
         self.sim.with(|s| {
             // 1. answer pending RPCs, oldest first
             for p in s.pending.iter() {
+                if cfg.sequential && !out.is_empty() {
+                    break;
+                }
                 if s.answerable(p) {
                     out.push((
                         Ev::Answer(p.id),
@@ -203,8 +209,13 @@ impl P {
                 }
             }
             // 3. part resolutions
+            let mut first_pending = true;
             for (i, part) in s.parts.iter().enumerate() {
                 if part.status == PartStatus::Pending {
+                    if cfg.sequential && !first_pending {
+                        break;
+                    }
+                    first_pending = false;
                     out.push((
                         Ev::Resolve(i, PartStatus::Complete),
                         Choice {
@@ -444,6 +455,7 @@ pub fn configs_wait(max_parts: usize, faults: bool) -> Vec<PCfg> {
                 max_new_parts: 0,
                 fail_codes: vec![202, 203, 204, 209],
                 faults,
+                sequential: false,
             });
         }
     }
@@ -467,8 +479,27 @@ pub fn configs_pay(max_new: u32, faults: bool) -> Vec<PCfg> {
                 max_new_parts: max_new,
                 fail_codes: vec![203, 204],
                 faults,
+                sequential: false,
             });
         }
+    }
+    out
+}
+
+
+/// Many pending parts (more than any batching constant a wrapper might use), canonical order only.
+pub fn configs_wait_many() -> Vec<PCfg> {
+    let mut out = Vec::new();
+    for n in [5usize, 6, 9] {
+        out.push(PCfg {
+            name: format!("wait/{}pending/sequential", n),
+            mode: Mode::Wait,
+            initial: vec![PartStatus::Pending; n],
+            max_new_parts: 0,
+            fail_codes: vec![204],
+            faults: false,
+            sequential: true,
+        });
     }
     out
 }
